@@ -1,5 +1,6 @@
 #![allow(dead_code)]
 //! `check <property> [--tier quick|thorough] [--replay <file>]`
+mod c04;
 mod c06;
 mod c10;
 mod c11;
@@ -21,6 +22,7 @@ type CheckFn = fn(&serde_json::Value) -> Verdict;
 
 fn lookup(id: &str) -> Option<(RunFn, CheckFn)> {
     Some(match id {
+        "C04" => (c04::run, c04::check_record),
         "C06" => (c06::run, c06::check_record),
         "C10" => (c10::run, c10::check_record),
         "C11" => (c11::run, c11::check_record),
